@@ -303,7 +303,8 @@ class C11(Prop):
                 doc["sep"] = g.choice([",", ", "]) if dl == "COMMA" else "\t"
             else:
                 doc = docmodel.std_doc(g, custom=g.choice([0, 0, 1]), wrap=g.random() < 0.2, nonascii=g.random() < 0.2,
-                                       ncurves=g.choice([None, None, None, None, 7, 14, 21, 24, 28, 35, 36]))
+                                       ncurves=g.choice([None, None, None, None, 7, 14, 21, 24, 28, 35, 36]),
+                                       vers=1.0 if g.random() < 0.06 else None)      # LAS 1.0 shares the 1.2 ~Well layout
             if g.random() < 0.3:
                 for sec in doc["sections"]:
                     if sec["kind"] == "C" and len(sec["items"]) > 1:
